@@ -1,5 +1,202 @@
-import Bkl
+/-
+  C20 — "bklb / kubectl-bkl rewrite only file arguments; all else passes through".
+  `wrapArgs` is `args.mapM wrapStep` (`wrapArgs_eq`): one independent step per argument.
+-/
+import BklProofs.Lemmas.Files
 namespace Bkl
-/-- placeholder until the property theorems land -/
-theorem C20_placeholder : validate (.int 1) = .ok () := by simp [validate]; rfl
+
+/-- The rewritten argv has the same length, and position by position every result is either
+    the argument itself or the evaluation of the file that this argument resolves to. -/
+theorem C20_length_order (fs : FS) (cwd : Comps) (env : Vars) (args : List String)
+    (ws : List WArg) (h : wrapArgs fs cwd env args = .ok ws) :
+    ws.length = args.length ∧
+    ∀ (i : Nat) (a : String), args[i]? = some a →
+      ∃ w, ws[i]? = some w ∧
+        (w = .verbatim a ∨
+          ∃ real f outs, fileMatch fs cwd a = .ok (real, f) ∧ w = .evaluated f outs) := by
+  rw [wrapArgs_eq, mapM_R_ok_iff] at h
+  refine ⟨(forall₂_length h).symm, ?_⟩
+  intro i a ha
+  obtain ⟨w, hw, hstep⟩ := forall₂_getElem? h i ha
+  refine ⟨w, hw, ?_⟩
+  unfold wrapStep at hstep
+  cases hm : fileMatch fs cwd a with
+  | error e =>
+    rw [hm] at hstep
+    simp only [Except.ok.injEq] at hstep
+    exact .inl hstep.symm
+  | ok rf =>
+    obtain ⟨real, f⟩ := rf
+    rw [hm] at hstep
+    simp only at hstep
+    split at hstep
+    · cases hstep
+    · split at hstep
+      · cases hstep
+      · rename_i outs _
+        simp only [Except.ok.injEq] at hstep
+        exact .inr ⟨real, f, outs, rfl, hstep.symm⟩
+
+/-- non-vacuity (sample file system `chainFS`, cwd /w): `apply -f a.json` -/
+example : wrapArgs chainFS ["w"] [] ["apply", "-f", "a.json"] =
+    .ok [.verbatim "apply", .verbatim "-f", .evaluated "json" [.map [("x", .int 1)]]] :=
+  chainFS_wrap_example
+
+/-- An argument that `FileMatch` does not resolve is passed through byte for byte. -/
+theorem C20_verbatim (fs : FS) (cwd : Comps) (env : Vars) (args : List String)
+    (ws : List WArg) (h : wrapArgs fs cwd env args = .ok ws)
+    (i : Nat) (a : String) (ha : args[i]? = some a) (e : Err)
+    (hm : fileMatch fs cwd a = .error e) : ws[i]? = some (.verbatim a) := by
+  rw [wrapArgs_eq, mapM_R_ok_iff] at h
+  obtain ⟨w, hw, hstep⟩ := forall₂_getElem? h i ha
+  unfold wrapStep at hstep
+  rw [hm] at hstep
+  simp only [Except.ok.injEq] at hstep
+  rw [hw, hstep]
+
+example : wrapArgs chainFS ["w"] [] ["apply", "-f", "a.json"] =
+      .ok [.verbatim "apply", .verbatim "-f", .evaluated "json" [.map [("x", .int 1)]]] ∧
+    ["apply", "-f", "a.json"][1]? = some "-f" ∧
+    fileMatch chainFS ["w"] "-f" = .error .invalidType :=
+  ⟨chainFS_wrap_example, rfl, chainFS_nomatch_f⟩
+
+/-- In particular every argument whose extension is not a supported format (flags, verbs,
+    resource names, …) is not resolved … -/
+theorem C20_unsupported_ext (fs : FS) (cwd : Comps) (a : String)
+    (hx : supportedExts.contains (extOf (baseOf (absPath cwd a))) = false) :
+    fileMatch fs cwd a = .error .invalidType := by
+  rw [fileMatch_eq, hx]
+  rfl
+
+example : supportedExts.contains (extOf (baseOf (absPath ["w"] "apply"))) = false := by
+  rw [absPath_rel (by simp [isAbsPath]) (splitPath_lit "apply" ["apply"] (by decide)), extOf_eq]
+  decide
+
+/-- … hence passed through. -/
+theorem C20_verbatim_ext (fs : FS) (cwd : Comps) (env : Vars) (args : List String)
+    (ws : List WArg) (h : wrapArgs fs cwd env args = .ok ws)
+    (i : Nat) (a : String) (ha : args[i]? = some a)
+    (hx : supportedExts.contains (extOf (baseOf (absPath cwd a))) = false) :
+    ws[i]? = some (.verbatim a) :=
+  C20_verbatim fs cwd env args ws h i a ha _ (C20_unsupported_ext fs cwd a hx)
+
+/-- A resolved argument is replaced by the output documents of the layered evaluation of the
+    real file, in the format named by the *argument's* extension. -/
+theorem C20_file_args (fs : FS) (cwd : Comps) (env : Vars) (args : List String)
+    (ws : List WArg) (h : wrapArgs fs cwd env args = .ok ws)
+    (i : Nat) (a : String) (ha : args[i]? = some a) (real : Comps) (f : String)
+    (hm : fileMatch fs cwd a = .ok (real, f)) :
+    f = extOf (baseOf (absPath cwd a)) ∧
+    ∃ st outs, mergeFileLayers fs { root := [], cwd := cwd } PState.empty real = .ok st ∧
+      outputDocuments (st.docs.map (·.2)) env = .ok outs ∧
+      ws[i]? = some (.evaluated f outs) := by
+  constructor
+  · rw [fileMatch_eq] at hm
+    split at hm
+    · split at hm
+      · simp only [Except.ok.injEq, Prod.mk.injEq] at hm
+        exact hm.2.symm
+      · cases hm
+    · cases hm
+  · rw [wrapArgs_eq, mapM_R_ok_iff] at h
+    obtain ⟨w, hw, hstep⟩ := forall₂_getElem? h i ha
+    unfold wrapStep at hstep
+    rw [hm] at hstep
+    simp only at hstep
+    cases hl : mergeFileLayers fs { root := [], cwd := cwd } PState.empty real with
+    | error e => rw [hl] at hstep; cases hstep
+    | ok st =>
+      rw [hl] at hstep
+      simp only at hstep
+      cases ho : outputDocuments (st.docs.map (·.2)) env with
+      | error e => rw [ho] at hstep; cases hstep
+      | ok outs =>
+        rw [ho] at hstep
+        simp only [Except.ok.injEq] at hstep
+        exact ⟨st, outs, rfl, ho, by rw [hw, hstep]⟩
+
+/-- non-vacuity: the argument says `a.json`, the real file is `/w/a.yaml`, the format is `json` -/
+example : wrapArgs chainFS ["w"] [] ["apply", "-f", "a.json"] =
+      .ok [.verbatim "apply", .verbatim "-f", .evaluated "json" [.map [("x", .int 1)]]] ∧
+    ["apply", "-f", "a.json"][2]? = some "a.json" ∧
+    fileMatch chainFS ["w"] "a.json" = .ok (["w", "a.yaml"], "json") :=
+  ⟨chainFS_wrap_example, rfl, chainFS_match_a_json⟩
+
+/-- If an argument resolves and its evaluation fails, the rewriting fails: the result is never
+    `.ok`, so the wrapped program is never reached. -/
+theorem C20_fail_no_exec (fs : FS) (cwd : Comps) (env : Vars) (args : List String)
+    (a : String) (ha : a ∈ args) (real : Comps) (f : String)
+    (hm : fileMatch fs cwd a = .ok (real, f))
+    (hfail : (∃ e, mergeFileLayers fs { root := [], cwd := cwd } PState.empty real = .error e) ∨
+      (∃ st e, mergeFileLayers fs { root := [], cwd := cwd } PState.empty real = .ok st ∧
+        outputDocuments (st.docs.map (·.2)) env = .error e)) :
+    ∃ e', wrapArgs fs cwd env args = .error e' := by
+  rw [wrapArgs_eq]
+  have : ∃ e, wrapStep fs cwd env a = .error e := by
+    unfold wrapStep
+    rw [hm]
+    rcases hfail with ⟨e, he⟩ | ⟨st, e, hst, he⟩
+    · exact ⟨e, by simp only [he]⟩
+    · exact ⟨e, by simp only [hst, he]⟩
+  obtain ⟨e, he⟩ := this
+  exact mapM_R_error_of_mem _ _ ha he
+
+/-- non-vacuity: `/w/bad.yaml` does not decode; the later, good `a.yaml` does not rescue it -/
+example : "bad.yaml" ∈ ["apply", "-f", "bad.yaml", "a.yaml"] ∧
+    fileMatch chainFS ["w"] "bad.yaml" = .ok (["w", "bad.yaml"], "yaml") ∧
+    mergeFileLayers chainFS ⟨[], ["w"]⟩ PState.empty ["w", "bad.yaml"] = .error .unmarshal ∧
+    wrapArgs chainFS ["w"] [] ["apply", "-f", "bad.yaml", "a.yaml"] = .error .unmarshal :=
+  ⟨by decide, chainFS_match_bad, chainFS_layers_bad _, chainFS_wrap_fail⟩
+
+/-- The error reported is that of the first failing argument (all earlier ones succeeded). -/
+theorem C20_first_failure (fs : FS) (cwd : Comps) (env : Vars) (args : List String) (e : Err) :
+    wrapArgs fs cwd env args = .error e ↔
+      ∃ l1 a l2, args = l1 ++ a :: l2 ∧ (∀ x ∈ l1, ∃ w, wrapStep fs cwd env x = .ok w) ∧
+        wrapStep fs cwd env a = .error e := by
+  rw [wrapArgs_eq]
+  exact mapM_R_error_iff _ _ _
+
+/-- A failing step is always a resolved file whose evaluation failed with that very error. -/
+theorem C20_step_error (fs : FS) (cwd : Comps) (env : Vars) (a : String) (e : Err)
+    (h : wrapStep fs cwd env a = .error e) :
+    ∃ real f, fileMatch fs cwd a = .ok (real, f) ∧
+      (mergeFileLayers fs { root := [], cwd := cwd } PState.empty real = .error e ∨
+        ∃ st, mergeFileLayers fs { root := [], cwd := cwd } PState.empty real = .ok st ∧
+          outputDocuments (st.docs.map (·.2)) env = .error e) := by
+  unfold wrapStep at h
+  cases hm : fileMatch fs cwd a with
+  | error e' => rw [hm] at h; cases h
+  | ok rf =>
+    obtain ⟨real, f⟩ := rf
+    rw [hm] at h
+    simp only at h
+    refine ⟨real, f, rfl, ?_⟩
+    cases hl : mergeFileLayers fs { root := [], cwd := cwd } PState.empty real with
+    | error e' =>
+      rw [hl] at h
+      simp only [Except.error.injEq] at h
+      exact .inl (by rw [h])
+    | ok st =>
+      rw [hl] at h
+      simp only at h
+      cases ho : outputDocuments (st.docs.map (·.2)) env with
+      | error e' =>
+        rw [ho] at h
+        simp only [Except.error.injEq] at h
+        exact .inr ⟨st, rfl, by rw [ho, h]⟩
+      | ok outs => rw [ho] at h; cases h
+
+example : wrapStep chainFS ["w"] [] "bad.yaml" = .error .unmarshal := by
+  unfold wrapStep
+  rw [chainFS_match_bad]
+  simp only [chainFS_layers_bad]
+
+/-- The wrapped program's name: exactly one trailing `b` removed. -/
+theorem C20_name :
+    wrappedName "kubectlb" = some "kubectl" ∧ wrappedName "recorderb" = some "recorder" ∧
+    wrappedName "bkl" = none ∧ wrappedName "abb" = some "ab" ∧
+    (∀ cs : List Char, wrappedName (String.ofList (cs ++ ['b'])) = some (String.ofList cs)) ∧
+    (∀ s : String, s.toList.getLast? ≠ some 'b' → wrappedName s = none) :=
+  ⟨by decide, by decide, by decide, by decide, wrappedName_snoc, wrappedName_none⟩
+
 end Bkl
